@@ -9,7 +9,6 @@ import (
 	"math/rand"
 	"net/http"
 	"os"
-	"regexp"
 	"strconv"
 	"strings"
 	"testing"
@@ -102,30 +101,24 @@ func TestStringFunctionBounds(t *testing.T) {
 	}
 }
 
-// axiom quoted-name-pattern: "^"+QuoteMeta(n)+"(_\d+)?$" compiles and matches x iff x has prefix n and the rest is (_digits)?
-func TestQuotedNamePattern(t *testing.T) {
+// built-in model of strings.LastIndex: r == len(s) for an empty separator; otherwise r == -1 and sep does not occur,
+// or sep occurs at r and nowhere in s[r+1:]
+func TestLastIndexModel(t *testing.T) {
 	r := rng()
-	rest := regexp.MustCompile(`^(_\d+)?$`)
-	for i := 0; i < 5000; i++ {
-		n := randStr(r, tokenChars, 8)
-		re, err := regexp.Compile("^" + regexp.QuoteMeta(n) + "(_\\d+)?$")
-		if err != nil {
-			t.Fatalf("pattern for %q does not compile: %v", n, err)
+	for i := 0; i < 20000; i++ {
+		s := randStr(r, "ab_", 10)
+		sep := randStr(r, "ab_", 3)
+		k := strings.LastIndex(s, sep)
+		ok := false
+		if sep == "" {
+			ok = k == len(s)
+		} else if k == -1 {
+			ok = !strings.Contains(s, sep)
+		} else {
+			ok = k >= 0 && k+len(sep) <= len(s) && s[k:k+len(sep)] == sep && !strings.Contains(s[k+1:], sep)
 		}
-		var x string
-		switch r.Intn(4) {
-		case 0:
-			x = n
-		case 1:
-			x = n + "_" + strconv.Itoa(r.Intn(1000))
-		case 2:
-			x = randStr(r, tokenChars, 10)
-		default:
-			x = n + randStr(r, "_0123456789a", 4)
-		}
-		want := strings.HasPrefix(x, n) && rest.MatchString(x[len(n):])
-		if got := re.MatchString(x); got != want {
-			t.Fatalf("pattern for %q on %q: regexp %v, axiom %v", n, x, got, want)
+		if !ok {
+			t.Fatalf("LastIndex(%q, %q) = %d contradicts the model", s, sep, k)
 		}
 	}
 }
